@@ -11,6 +11,7 @@ R4 exclusive create: every open() that can create a file in the library's writer
    file-creating call exists in the unit.
 D  rests on: C02 C02.R3 (the ordering gate is exactly as good as the byte comparison it calls) - re-run here as <id>.D.<rule>.
 """
+import re
 from .common import *
 
 EXPLANATION = ("static decision-table and effect rules over the resolved AST/CFG of the writer's add and init functions: "
@@ -22,22 +23,27 @@ COMPLETE = ("C08.R2 refusal performs no store", "C08.R4 exclusive-create flag co
 CREATORS = {"fopen", "creat", "mkstemp", "mkostemp", "openat", "open64", "freopen", "mkstemps", "tmpfile"}
 
 
-def cmp_call_roles(f, call, key_params, field):
-    """For bytes_compare(a, la, b, lb) decide orientation: +1 if (key, last_key), -1 if mirrored, 0 unknown."""
-    a = [strip(x) for x in call_args(call)]
+def cmp_call_roles(f, p, e, key_params, field):
+    """For the evaluated call bytes_compare(a, la, b, lb) decide orientation from the *values* of its arguments on path p:
+    +1 if (key, last_key), -1 if mirrored, 0 unknown.  (key, len) are the function's parameters; the last key is
+    (ubuf_data(X), ubuf_size(X)) for one and the same X whose value is the writer's `field` - however X is spelled."""
+    a = e.b
     if len(a) != 4:
         return 0
+    kn, ln = f.params[key_params[0]]["name"], f.params[key_params[1]]["name"]
 
-    def is_key(p, l):
-        return (p["k"] == "DeclRefExpr" and p.get("dk") == "param" and p["idx"] == key_params[0] and
-                l["k"] == "DeclRefExpr" and l.get("dk") == "param" and l["idx"] == key_params[1])
+    def is_key(pv, lv):
+        return pv == ("s", kn) and lv == ("s", ln)
 
-    def is_last(p, l):
-        if not (is_call(p, "ubuf_data") and is_call(l, ("ubuf_size", "ubuf_bytes"))):
-            return False
-        x, y = strip(call_args(p)[0]), strip(call_args(l)[0])
-        return x["k"] == "MemberExpr" and x["field"] == field and y["k"] == "MemberExpr" and y["field"] == field \
-            and canon(x) == canon(y)
+    def producer(v, names):
+        for e2 in p.events:
+            if e2.kind == "call" and e2.c == v and e2.a in names and e2.b:
+                return e2.b[0]
+        return None
+
+    def is_last(pv, lv):
+        x, y = producer(pv, ("ubuf_data",)), producer(lv, ("ubuf_size", "ubuf_bytes"))
+        return x is not None and x == y and re.match(r"^%s->%s$" % (re.escape(f.params[0]["name"]), field), strip_tags(APE.vstr(x))) is not None
 
     if is_key(a[0], a[1]) and is_last(a[2], a[3]):
         return 1
@@ -72,7 +78,7 @@ def run(ctx, res):
         orient = None
         cons = None
         for e in cmps:
-            o = cmp_call_roles(f, e.node, (1, 2), "last_key")
+            o = cmp_call_roles(f, p, e, (1, 2), "last_key")
             if o:
                 orient = o
                 cons = p.cons.get((APE.vstr(e.c), "#0"))
@@ -134,17 +140,18 @@ def run(ctx, res):
                 if e.kind != "call":
                     continue
                 args = call_args(e.node)
-                tgt = [i for i, a in enumerate(args) if strip(a)["k"] == "MemberExpr" and strip(a)["field"] == "last_key"
-                       and strip(a).get("rec") == "mtbl_writer"]
+                # by value: any spelling of the writer's last-key vector (w->last_key, a local copy of the pointer, ...)
+                tgt = [i for i, v in enumerate(e.b) if re.match(r"^%s->last_key$" % re.escape(f.params[0]["name"]), strip_tags(APE.vstr(v)))]
                 if not tgt:
                     continue
                 widx, other = cg.written_args(f.unit, e.node, f)
                 if not (set(tgt) & set(widx)):
                     continue
-                if e.a == "ubuf_reset" or (e.a == "ubuf_clip" and const_val(args[1]) == 0):
+                if e.a == "ubuf_reset" or (e.a == "ubuf_clip" and len(e.b) > 1 and e.b[1] == ("c", 0)):
                     content = []
-                elif e.a == "ubuf_append" and isinstance(content, list):
-                    content = content + [(arg_role(f, args[1]), arg_role(f, args[2]))]
+                elif e.a == "ubuf_append" and isinstance(content, list) and len(e.b) >= 3:
+                    role = lambda v: ("param", [q["name"] for q in f.params].index(v[1])) if v[0] == "s" and v[1] in [q["name"] for q in f.params] else ("other", APE.vstr(v))
+                    content = content + [(role(e.b[1]), role(e.b[2]))]
                 else:
                     content = "unknown"
             res.check(content == [(("param", 1), ("param", 2))], "C08.R3", site(f, "success-path:last_key"),
